@@ -589,6 +589,33 @@ func (it *Interp) crcAxioms(n *crcApp) {
 	}
 }
 
+// crcForgery implements the "no forgery" rule of the ideal checksum: a value that is not itself the result
+// of a checksum application never equals a checksum result (2^-32 coincidences and adversarial data are
+// outside every claim). Exactly one side being a checksum result decides the comparison as "different".
+func (it *Interp) crcForgery(x, y Value) bool {
+	tab := it.crcTab
+	if tab == nil || tab.byID == nil {
+		return false
+	}
+	isRes := func(v Value) bool {
+		switch c := v.(type) {
+		case uint64:
+			_, ok := tab.byID[norm(c, 32, false)]
+			return ok
+		case *smt.Term:
+			_, ok := tab.byID[c]
+			return ok
+		}
+		return false
+	}
+	_, xs := x.(*smt.Term)
+	_, ys := y.(*smt.Term)
+	if !xs && !ys {
+		return false
+	}
+	return isRes(x) != isRes(y)
+}
+
 func (it *Interp) crcUpdate(crc Value, data []Value) Value {
 	tab := it.crcTab
 	var app *crcApp
